@@ -11,6 +11,7 @@ from __future__ import annotations
 
 import copy
 import os
+import re
 import shutil
 
 from vlib import cli, common, corpus, emit, evo, fsmon, modelgen, mut, rt, values
@@ -252,6 +253,47 @@ def run(ctx):
 
     for s in [x for x in pmap(one, asts, workers=8) if x][:6]:
         ctx.sample(s)
+    boundary_lengths(ctx, home)
+
+
+def boundary_lengths(ctx, home):
+    """fixed lengths at the boundaries of the integer widths, written in the short and in the expanded syntax: both spellings are accepted or both are
+    rejected, and an accepted pair gives the same model"""
+    import json
+    lens = ["0", "1", "2", "255", "65536", "4294967295", "4294967297", "9223372036854775807", "9223372036854775808", "18446744073709551615", "18446744073709551616",
+            "18446744073709551617", "340282366920938463463374607431768211457", "-1", "007", "1e3", "3.0"]
+    # (a hexadecimal length is a YAML spelling of an integer node; the short type syntax has its own grammar with decimal lengths only: not a pair of spellings of one model)
+    forms = {"vector": ("int*%s", "!vector {items: int, length: %s}"), "array": ("int[%s]", "!array {items: int, dimensions: [%s]}"),
+             "named-dimension": ("int[d:%s]", "!array {items: int, dimensions: {d: %s}}"), "second-dimension": ("int[2, %s]", "!array {items: int, dimensions: [2, %s]}")}
+    for kind, (short, expanded) in forms.items():
+        for L in lens:
+            res = {}
+            for sp, text in (("short", "'%s'" % (short % L)), ("expanded", expanded % L)):
+                cdir = os.path.join(ctx.workdir, "cases", "len_%s_%s_%s" % (kind, re.sub(r"\W", "_", L), sp))
+                shutil.rmtree(cdir, ignore_errors=True)
+                common.write_tree(cdir, {"p/_package.yml": "namespace: Len\njson:\n  outputDir: ../out\n", "p/m.yml": "R: !record\n  fields:\n    f: %s\nP: !protocol\n  sequence:\n    r: R\n" % text})
+                p = cli.run_cli("generate", os.path.join(cdir, "p"), home)
+                ctx.ev()
+                dump = None
+                if p.rc == 0:
+                    try:
+                        dump = json.dumps(json.load(open(os.path.join(cdir, "out/model.json"))), sort_keys=True)
+                    except (OSError, ValueError):
+                        dump = "unreadable"
+                res[sp] = (p.rc, dump, cli.panic_site(p.stderr), cdir)
+            ctx.case(("boundary-length", kind, L))
+            ctx.count("boundary-lengths")
+            (rs, ds, ps, cs), (re_, de, pe, ce) = res["short"], res["expanded"]
+            if ps or pe:
+                ctx.violation("panic@%s" % (ps or pe), "length %s of a %s: crash" % (L, kind), {"case_dir": cs if ps else ce})
+            elif (rs == 0) != (re_ == 0):
+                ctx.violation("verdict-differs:length:%s" % kind, "length %s of a %s: the short spelling is %s, the expanded one %s" % (L, kind, "accepted" if rs == 0 else "rejected", "accepted" if re_ == 0 else "rejected"),
+                              {"short": cs, "expanded": ce})
+            elif rs == 0 and ds != de:
+                ctx.violation("model-differs:length:%s" % kind, "length %s of a %s: the two spellings are accepted but give different models" % (L, kind), {"short": cs, "expanded": ce})
+            else:
+                shutil.rmtree(cs, ignore_errors=True)
+                shutil.rmtree(ce, ignore_errors=True)
 
 
 def replay(ctx, path):
